@@ -284,7 +284,7 @@ func run(prop, tier string, budget float64, evidence, known, replays string, wor
 				return
 			}
 			cmd := exec.Command(self, "worker", "-prop", prop, "-tier", tier, "-name", inst.Name, "-budget", strconv.FormatFloat(left, 'f', 1, 64), "-known", known)
-			cmd.Env = append(os.Environ(), "GOMAXPROCS=1", "GOMEMLIMIT=6GiB")
+			cmd.Env = append(os.Environ(), "GOMAXPROCS=1", "GOMEMLIMIT=3500MiB")
 			var errb strings.Builder
 			cmd.Stderr = &errb
 			out, err := cmd.Output()
@@ -348,7 +348,7 @@ func run(prop, tier string, budget float64, evidence, known, replays string, wor
 		}
 		if st.EngineError != "" {
 			engineErr += st.Scenario + ": " + st.EngineError + "\n"
-		} else if st.Executions > 0 && st.Complete == 0 && st.SleepBlocked == 0 && len(st.Violations) == 0 {
+		} else if st.Executions > 0 && st.Complete == 0 && st.SleepBlocked == 0 && len(st.Violations) == 0 && !strings.Contains(st.Capped, "deadline") {
 			engineErr += st.Scenario + ": VACUOUS: no execution ran to completion (every one was pruned)\n"
 		}
 		if len(samples) < 3 && len(st.SampleTrace) > 0 {
